@@ -313,6 +313,8 @@ def rleFrom : Nat → List Int → List Run
 def rle (path : List Int) : List Run := rleFrom 0 path
 
 def Run.range (r : Run) : Nat × Nat := (r.start, r.stop)
+/-- the number of samples of a run -/
+def Run.len (r : Run) : Int := (r.stop : Int) - r.start
 
 /-- The runs are non-empty and contiguous from index `i` to index `n`: pairwise disjoint, tiling `[i, n)`. -/
 def Contig : Nat → Nat → List Run → Prop
@@ -415,7 +417,7 @@ def subStochastic (K : Nat) (pi : Nat → Rat) (A : Nat → Nat → Rat) : Bool 
   `c16.emtab K pi A B`              → `L L' (L ≤ L') hypotheses` (`em_monotone_tables`: small traces only, all paths summed)
   `c16.vit K logpi logA logB path`  → `modelpath optimum score(path) scale` (`N` = −∞, `bad` = wrong shape)
   `c16.fb K pi A B data`            → `c gammas xis pi' A' mean' var'` or `degenerate` (some `c_t = 0`)
-  `c16.dwell path T|F`              → state ranges;  `c16.dwellc path T|F` → dwell counts
+  `c16.dwell path T|F`              → state ranges;  `c16.dwellc path T|F` → dwell counts;  `c16.dwelltot path T|F` → samples covered by all dwells
   `c16.init n kind [m]`             → `ok` or the documented error  -/
 def handle : List String → Option String
   | ["c16.vit", K, lp, la, lb, path] => do
@@ -478,6 +480,12 @@ def handle : List String → Option String
     let ex ← bool? ex
     match dwellsChecked path ex with
     | .ok d => some (showCounts d)
+    | .error e => some e
+  | ["c16.dwelltot", path, ex] => do
+    let path ← listOf? label? path
+    let ex ← bool? ex
+    match dwellsChecked path ex with
+    | .ok d => some (toString (totalCounts d))
     | .error e => some e
   | "c16.init" :: n :: g => do
     let n ← nat? n
